@@ -262,8 +262,10 @@ pub fn c15(tier: &str, seed: u64) -> Vec<Case> {
         let mut advertised: Vec<(String, InstanceInformation)> = vec![];
         let peers = r.range(1, 3) as usize;
         let mut has_empty_key = false;
-        for peer in 0..peers {
-            let iname = format!("{}{}", r.pick(&["printer", "Living-Room", "x", "a1_b", "n0"]), peer);
+        let mut name_pool = vec!["printer", "Printer", "PRINTER", "Living-Room", "living-room", "x", "X", "a1_b", "n0"];
+        for _peer in 0..peers {
+            // distinct names within a history; names equal up to letter case are distinct instances
+            let iname = name_pool.remove(r.below(name_pool.len() as u64) as usize).to_string();
             let mut inst = InstanceInformation::new(iname.clone());
             for _ in 0..r.below(3) { inst = inst.with_ip_address(IpAddr::V4(Ipv4Addr::from(0x0A000000 + r.below(4) as u32))); }
             for _ in 0..r.below(2) { inst = inst.with_ip_address(IpAddr::V6(Ipv6Addr::from((0xFE80u128 << 112) + r.below(3) as u128))); }
